@@ -144,43 +144,33 @@ theorem seq_of_program (p : WalParams) (ops : List LogOp) :
 theorem payloadSize_seq (p : WalParams) (op s s' : Nat) (k v : Bytes) :
     payloadSize p { op, seq := s, key := k, val := v } = payloadSize p { op, seq := s', key := k, val := v } := rfl
 
-theorem batchBytes_too_large (p : WalParams) (crc : Bytes → Nat) (seq : Nat) :
+theorem batchFits_too_large (p : WalParams) (seq : Nat) :
     ∀ (es : List (Nat × Bytes × Bytes)),
       (∃ t ∈ es, payloadSize p { op := t.1, seq := 0, key := t.2.1, val := t.2.2 } > p.maxRecord) →
-      (batchBytes p crc seq es).2 = false := by
-  intro es
-  induction es with
-  | nil => intro ⟨t, ht, _⟩; simp at ht
-  | cons t es ih =>
-    intro ⟨t', ht', hbig⟩
-    obtain ⟨op, k, v⟩ := t
-    unfold batchBytes
-    by_cases hfit : payloadSize p { op, seq, key := k, val := v } > p.maxRecord
-    · simp only [if_pos hfit]
-    · simp only [if_neg hfit]
-      simp only [List.mem_cons] at ht'
-      rcases ht' with rfl | ht'
-      · exact absurd hbig hfit
-      · exact ih ⟨t', ht', hbig⟩
+      batchFits p seq es = false := by
+  intro es ⟨t, ht, hbig⟩
+  unfold batchFits
+  rw [Bool.eq_false_iff]
+  intro hall
+  rw [List.all_eq_true] at hall
+  have := hall t ht
+  obtain ⟨op, k, v⟩ := t
+  simp only [decide_eq_true_eq] at this
+  rw [payloadSize_seq p op seq 0 k v] at this
+  simp only at hbig
+  omega
 
+/-- a batch with an entry beyond the record limit is rejected as a whole: the log is left exactly as it was. -/
 theorem batch_too_large (p : WalParams) (crc : Bytes → Nat) (l : Log) (es : List (Nat × Bytes × Bytes))
     (hne : es ≠ []) (hseq : l.next < p.maxSeq)
     (h : ∃ t ∈ es, payloadSize p { op := t.1, seq := 0, key := t.2.1, val := t.2.2 } > p.maxRecord) :
-    (l.batch p crc es).1 = .error .tooLarge ∧ (l.batch p crc es).2.next = l.next := by
+    (l.batch p crc es).1 = .error .tooLarge ∧ (l.batch p crc es).2 = l := by
   have hemp : es.isEmpty = false := by cases es <;> simp_all
-  have hb := batchBytes_too_large p crc l.next es h
+  have hb := batchFits_too_large p l.next es h
   unfold Log.batch
   have c : ¬ l.next ≥ p.maxSeq := by omega
   rw [hemp]
-  simp only [Bool.false_eq_true, if_false, if_neg c]
-  cases hbb : batchBytes p crc l.next es with
-  | mk bs ok =>
-    rw [hbb] at hb
-    simp only at hb
-    subst hb
-    simp only [Bool.false_eq_true, if_false, true_and]
-    unfold Log.write
-    split <;> rfl
+  simp only [Bool.false_eq_true, if_false, if_neg c, hb, Bool.not_false, if_true, and_self]
 
 /-! ### the log as files of encoded entries -/
 
@@ -233,10 +223,22 @@ theorem Inv.add (p : WalParams) (crc : Bytes → Nat) (l : Log) (a : ALog) (n : 
   · simp only [h.next]
   · have := h.bound; simp only; omega
 
+theorem batchFits_fit (p : WalParams) (seq : Nat) (es : List (Nat × Bytes × Bytes))
+    (h : ∀ t ∈ es, payloadSize p { op := t.1, seq := 0, key := t.2.1, val := t.2.2 } ≤ p.maxRecord) :
+    batchFits p seq es = true := by
+  unfold batchFits
+  rw [List.all_eq_true]
+  intro t ht
+  have := h t ht
+  obtain ⟨op, k, v⟩ := t
+  simp only [decide_eq_true_eq]
+  rw [payloadSize_seq p op seq 0 k v]
+  exact this
+
 theorem batchBytes_fit (p : WalParams) (crc : Bytes → Nat) (seq : Nat) :
     ∀ (es : List (Nat × Bytes × Bytes)),
       (∀ t ∈ es, payloadSize p { op := t.1, seq := 0, key := t.2.1, val := t.2.2 } ≤ p.maxRecord) →
-      batchBytes p crc seq es = (encFile p crc (es.map (stamp seq)), true) := by
+      batchBytes p crc seq es = encFile p crc (es.map (stamp seq)) := by
   intro es
   induction es with
   | nil => intro _; rfl
@@ -244,9 +246,7 @@ theorem batchBytes_fit (p : WalParams) (crc : Bytes → Nat) (seq : Nat) :
     intro h
     obtain ⟨op, k, v⟩ := t
     have hfit : payloadSize p { op, seq, key := k, val := v } ≤ p.maxRecord := h (op, k, v) (by simp)
-    have c : ¬ payloadSize p { op, seq, key := k, val := v } > p.maxRecord := by omega
     unfold batchBytes
-    simp only [if_neg c]
     rw [ih (fun t ht => h t (by simp [ht]))]
     simp only [List.map_cons, encFile_cons]
     have : encodeEntry p crc (stamp seq (op, k, v)) = record crc p.tFull (payload p { op, seq, key := k, val := v }) := by
@@ -306,7 +306,8 @@ theorem Inv.step (p : WalParams) (hp : p.WF) (crc : Bytes → Nat) (hcrc : CrcOK
             rw [if_neg hnd] at hsz; omega)
       rw [step_batch a es hes]
       have hbb := batchBytes_fit p crc l.next es (fun t ht => (ho t ht).2)
-      simp only [stepL, Log.batch, hemp, Bool.false_eq_true, if_false, if_neg hnext, hbb, if_true]
+      have hbf := batchFits_fit p l.next es (fun t ht => (ho t ht).2)
+      simp only [stepL, Log.batch, hemp, Bool.false_eq_true, if_false, if_neg hnext, hbb, hbf, Bool.not_true]
       rw [h.next]
       rw [h.next] at hI
       exact hI
